@@ -29,6 +29,7 @@ type Expr struct {
 	Pre  bool   `json:"pre,omitempty"`
 	Inc  bool   `json:"inc,omitempty"`
 	Arr  bool   `json:"arr,omitempty"` // print as arrow function (same semantics in the fragment)
+	Flat bool   `json:"flat,omitempty"` // bin: print operator operands without the parentheses that precedence / left associativity make redundant
 }
 
 type Stmt struct {
@@ -106,6 +107,19 @@ func (e *Expr) js() string {
 	case "assign":
 		return "(" + nm(e.X) + " = " + e.A.js() + ")"
 	case "bin":
+		if e.Flat {
+			// all binary operators of the fragment are left-associative: a left operand of the same or a higher
+			// precedence and a right operand of a strictly higher precedence need no parentheses
+			// (a < b < c is (a < b) < c; a < b === c is (a < b) === c; a - b - c is (a - b) - c)
+			l, r := e.A.js(), e.B.js()
+			if e.A.K == "bin" && binPrec(e.A.Op) >= binPrec(e.Op) {
+				l = l[1 : len(l)-1]
+			}
+			if e.B.K == "bin" && binPrec(e.B.Op) > binPrec(e.Op) {
+				r = r[1 : len(r)-1]
+			}
+			return "(" + l + " " + e.Op + " " + r + ")"
+		}
 		return "(" + e.A.js() + " " + e.Op + " " + e.B.js() + ")"
 	case "typeof":
 		return "(typeof " + nm(e.X) + ")"
@@ -187,6 +201,19 @@ func (s *Stmt) js(ind int) string {
 		return pad + "try " + s.S1.js(0) + " catch (" + nm(s.X) + ") " + s.S2.js(0)
 	}
 	panic("stmt kind " + s.K)
+}
+
+func binPrec(op string) int {
+	switch op {
+	case "*":
+		return 12
+	case "+", "-":
+		return 11
+	case "<":
+		return 9
+	default: // ===
+		return 8
+	}
 }
 
 func (e *Expr) nfun() int {
@@ -513,6 +540,32 @@ func (g *fgen) genExpr(depth int) *Expr {
 			}
 			g.feat["const_operand"] = true
 		}
+		if g.r.Chance(40) {
+			// chains whose grouping is left to the parser: a < b < c, a < b === c, a - b - c, a + b * c ...
+			g.feat["chained_operators"] = true
+			op2 := []string{"<", "<", "===", "-", "+", "*"}[g.r.Intn(6)]
+			inner := &Expr{K: "bin", Op: op2, A: g.genExpr(depth - 1), B: g.genExpr(depth - 1), Flat: g.r.Bool()}
+			if g.r.Chance(50) {
+				// small integer / boolean operands: the grouping decides the result (3 < 2 < 1, 1 < 2 === true, 5 - 2 - 1)
+				small := func() *Expr {
+					if g.r.Chance(15) {
+						return konst("bool", int64(g.r.Intn(2)))
+					}
+					return konst("int", int64(g.r.Intn(5))-1)
+				}
+				inner.A, inner.B = small(), small()
+				if g.r.Chance(65) {
+					return &Expr{K: "bin", Op: op, A: inner, B: small(), Flat: true}
+				}
+				return &Expr{K: "bin", Op: op, A: small(), B: inner, Flat: true}
+			}
+			if g.r.Chance(65) {
+				a = inner
+			} else {
+				b = inner
+			}
+			return &Expr{K: "bin", Op: op, A: a, B: b, Flat: true}
+		}
 		return &Expr{K: "bin", Op: op, A: a, B: b}
 	case 4:
 		return &Expr{K: "typeof", X: g.pickRead()}
@@ -551,6 +604,31 @@ func (g *fgen) genExpr(depth int) *Expr {
 		}
 		return g.genConst()
 	}
+}
+
+// a chain of relational / equality operators over small integers, printed WITHOUT grouping parentheses: the
+// parser's associativity decides the value (3 < 2 < 1 is true, 1 < 2 === true is true, 2 < 1 < 1 is true ...)
+func (g *fgen) relChain() *Expr {
+	g.feat["relational_chain"] = true
+	small := func() *Expr {
+		switch g.r.Pick(70, 15, 15) {
+		case 1:
+			return konst("bool", int64(g.r.Intn(2)))
+		case 2:
+			vis := g.visible(func(b *bind) bool { return b.inited })
+			if len(vis) > 0 {
+				return &Expr{K: "var", X: vis[g.r.Intn(len(vis))]}
+			}
+		}
+		return konst("int", int64(g.r.Intn(5))-1)
+	}
+	e := &Expr{K: "bin", Op: "<", A: small(), B: small(), Flat: true}
+	n := 1 + g.r.Intn(2)
+	for i := 0; i < n; i++ {
+		op := []string{"<", "<", "==="}[g.r.Intn(3)]
+		e = &Expr{K: "bin", Op: op, A: e, B: small(), Flat: true}
+	}
+	return e
 }
 
 // an expression evaluated mostly for its effect
@@ -770,6 +848,9 @@ func (g *fgen) genStmt(depth int) *Stmt {
 	}
 	switch g.r.Pick(22, 20, 8, 9, 5, 8, 3, 7, 3, 5, 4) {
 	case 0:
+		if g.r.Chance(15) {
+			return &Stmt{K: "log", E: g.relChain()}
+		}
 		return &Stmt{K: "log", E: g.genExpr(depth)}
 	case 1:
 		return &Stmt{K: "expr", E: g.genEffect(depth)}
